@@ -146,6 +146,7 @@ func RunJob(j Job) (res *Result) {
 	ps := Props[j.Prop]
 	c := &Ctx{Job: j, Events: res.Events, Extra: map[string]interface{}{}}
 	chain.SubSecondJobs = j.Index%3 != 0
+	chain.GovOwnedShareEntries = j.Index%2 == 1
 	if ps != nil && ps.Monitors != nil {
 		c.Mons = ps.Monitors()
 	}
